@@ -119,6 +119,17 @@ EXTRA2 = {
 }
 for k, v in EXTRA2.items():
     CHECKS[k]["text"] += v
+# round 23
+EXTRA3 = {
+ "C01": " Rounds 21-23: the scope-event menu has 85 events (blocks ending in an exit, function reads inside shadowing scopes).",
+ "C05": " Round 23: self-nesting of every short token template (<= 4 tokens over ten, 5 over six, a hole at every position, nested 45 times in itself).",
+ "C07": " Round 23: prefix operators in front of literals of every magnitude in seven operand positions.",
+ "C09": " Round 23: scope events with blocks that declare the name and end in an exit, and function reads inside shadowing scopes.",
+ "C14": " Round 23: print with a first argument whose rendering contains placeholders (lists of texts) and 0-3 further arguments.",
+ "C16": " Round 23: the profile table also has the values around the square roots of 2^60, 2^63 and 2^64.",
+}
+for k, v in EXTRA3.items():
+    CHECKS[k]["text"] += v
 CHECKS["C02"]["note"] = CHECKS["C02"]["note"].replace("heights are explored exactly up to 96 slots above the frame base", "heights are explored exactly, at most 64 different heights per instruction")
 
 NOT_YET = {}
